@@ -32,12 +32,13 @@ use std::time::{Duration, Instant};
 pub const PARENT_EVENTS: &[&str] = &["a", "b", "c", "a.b", "d.e", "x"];
 const CHILD_POKES: &[&str] = &["poke", "poke", "fin", "finmsg"];
 
-/// the child document (its final state says `k.bye` to the parent from its `onexit`, which must
+/// the child document (it announces itself with `k.hello` while the parent may still be starting
+/// further invocations — the interleaving that used to deadlock, /repo commit 1c1d11d; its final state says `k.bye` to the parent from its `onexit`, which must
 /// still arrive before `done.invoke`): answers pokes, reports forwarded parent events, ends on
 /// `fin` / `finmsg` (the latter with a last message)
 pub fn child_xml() -> String {
     "<scxml xmlns=\"http://www.w3.org/2005/07/scxml\" version=\"1.0\" datamodel=\"rfsm-expression\" name=\"child\" initial=\"run\">\
-     <state id=\"run\">\
+     <state id=\"run\"><onentry><send event=\"k.hello\" target=\"#_parent\"/></onentry>\
      <transition event=\"poke\"><send event=\"k.pong\" target=\"#_parent\"/></transition>\
      <transition event=\"fin\" target=\"done\"/>\
      <transition event=\"finmsg\" target=\"done\"><send event=\"k.last\" target=\"#_parent\"/></transition>\
@@ -142,7 +143,10 @@ pub fn decorate(d: &mut GDoc, p: &mut Prng) -> usize {
                     4 => format!("done.invoke.c{}", 1 + next(4)),
                     _ => "k.last k.fwd".to_string(),
                 };
-                let targets = if next(3) == 0 { vec![] } else { vec![ids2[next(ids2.len() as u64) as usize].clone()] };
+                // a transition on the children's start-up announcement never has a target: re-entering an
+                // invoking state on `k.hello` would start a child whose `k.hello` re-enters it again, for ever
+                let pick = next(ids2.len() as u64) as usize;
+                let targets = if next(3) == 0 || ev.starts_with("k.hello") || ev == "k" { vec![] } else { vec![ids2[pick].clone()] };
                 let content = if next(2) == 0 { vec![GItem::Assign(format!("v{}", next(3)), format!("v{} + 1", next(3)))] } else { vec![] };
                 s.trans.push(GTrans { events: ev.split(' ').map(|x| x.to_string()).collect(), cond: None, targets, internal: false, content });
             }
@@ -1011,6 +1015,11 @@ pub fn check_case(c: &Case14, model: &mut Model, rep: &mut Report) {
     let evs = events_of(&run.trace);
     if std::env::var("VH_DEBUG").is_ok() && (run.panicked || run.timed_out || !run.children_alive.is_empty()) {
         eprintln!("PROBLEM panicked={} timed_out={} alive={:?} tail:", run.panicked, run.timed_out, run.children_alive);
+        let raws: Vec<&String> = run.trace.iter().filter(|l| l.starts_with("msg verif") || l.starts_with("enter ") || l.starts_with("exit ") || l.starts_with("int ") || l.starts_with("ext ") || l.starts_with("res enabledTransitions") || l.starts_with("dm ") || l == &"m> externalQueue.dequeue").collect();
+        eprintln!("   total lines {} ; last protocol lines:", run.trace.len());
+        for l in raws.iter().rev().take(60).collect::<Vec<_>>().iter().rev() {
+            eprintln!("   | {}", l);
+        }
         for l in run.trace.iter().rev().take(40).collect::<Vec<_>>().iter().rev() {
             if !(l.starts_with("m> is") || l.starts_with("m< is") || l.starts_with("arg state") || l.starts_with("res result")) {
                 eprintln!("   {}", l);
@@ -1039,11 +1048,22 @@ pub fn check_case(c: &Case14, model: &mut Model, rep: &mut Report) {
         rep.oracle_fail("C14:deadlock:executor-state-held", info("the executor's state mutex is held for good: session start (executor state → processor) against a cross-session send (processor → executor state); the parent takes no further step"));
         return;
     }
+    if (run.panicked || run.timed_out) && run.trace.len() > 60_000 {
+        // runaway: the document and its children feed each other for ever (a child's start-up message
+        // changes data that re-enters the invoking state, which starts the next child, …) or a
+        // macrostep does not end; the recording tracer ended the session at its cap.  Not a
+        // platform failure: a platform hang produces no trace, a platform panic not this much.
+        rep.count("skipped_runaway_feedback_loop");
+        return;
+    }
     if run.panicked || run.timed_out {
         // an endless macrostep is the document's doing, not the platform's: ask the model
         let (_, status) = model_obs(model, &run.doc, &evs);
         // (the verification data model's i64 arithmetic overflows in documents that double a
         // counter for ever: that panic is the harness's own and ends the spinning thread)
+        if std::env::var("VH_DEBUG").is_ok() {
+            eprintln!("   model status for the died/hung run: {:?}", status);
+        }
         if status == "diverged" {
             rep.count("skipped_document_diverges");
             return;
